@@ -211,7 +211,7 @@ Proof.
 Qed.
 
 Lemma popn_model left c l :
-  0 < c -> l <> [] ->
+  0 <= c -> l <> [] ->
   ref_popn left c l =
   let n := Z.to_nat (Z.min c (zlength l)) in
   if left then (RArr (map RBulk (firstn n l)), skipn n l)
@@ -584,7 +584,7 @@ Lemma pop_cmd_ok left d args r d' n :
           | [_; k; c] =>
             match int_arg c with
             | None => CErr
-            | Some c => if c <? 0 then CErr else if c =? 0 then CErrOr (RArr []) else CKey k (ref_popn left c)
+            | Some c => if c <? 0 then CErr else CKey k (ref_popn left c)
             end
           | _ => CErr end) ->
   step_ok n args d r d'.
@@ -604,19 +604,14 @@ Proof.
         inv_pair H. split; [reflexivity|right; reflexivity].
   - (* count *)
     unfold int_arg. destruct (atoi64 c) as [z|]; [|err_case H].
-    destruct (z <=? 0) eqn:E0; [apply Z.leb_le in E0|apply Z.leb_gt in E0].
-    + inv_pair H. destruct (z <? 0) eqn:E1; [apply cerr_ok|]. apply Z.ltb_ge in E1.
-      assert (z = 0) by lia. subst z. cbn [Z.eqb].
-      split; [split; [left; reflexivity|intros k0; reflexivity]|apply lupd_refl].
-    + destruct (z <? 0) eqn:E1; [apply Z.ltb_lt in E1; lia|].
-      destruct (z =? 0) eqn:E2; [apply Z.eqb_eq in E2; lia|].
-      pose proof (get_list_view d k W Hok) as V.
-      apply ckey_ok; [assumption..|].
-      destruct (get_list d k) as [| |l].
-      * inv_pair H. split; [reflexivity|left; split; reflexivity].
-      * inv_pair H. split; reflexivity.
-      * destruct V as [_ Hl]. rewrite popn_model by (try lia; exact Hl). cbv zeta.
-        destruct left; inv_pair H; (split; [reflexivity|right; reflexivity]).
+    destruct (z <? 0) eqn:E1; [err_case H|]. apply Z.ltb_ge in E1.
+    pose proof (get_list_view d k W Hok) as V.
+    apply ckey_ok; [assumption..|].
+    destruct (get_list d k) as [| |l].
+    + inv_pair H. split; [reflexivity|left; split; reflexivity].
+    + inv_pair H. split; reflexivity.
+    + destruct V as [_ Hl]. rewrite popn_model by (try lia; exact Hl). cbv zeta.
+      destruct left; inv_pair H; (split; [reflexivity|right; reflexivity]).
 Qed.
 
 Lemma exec_lrem_ok d args r d' :
